@@ -105,7 +105,8 @@ def run_check(prop, tier, seed, scratch, t0, args):
                 cost = 10 ** 6 * h.get("L", 2)
             job = dict(harness=h["harness"], unwind=h["unwind"], unwindset=h.get("unwindset"),
                        timeout_s=hand.TIMEOUT[tier]["E" if fam.startswith("E") else "T"],
-                       mem_gb=(12 if h.get("L", 2) + len(h.get("prefix", "")) // 2 <= 2 and g["nslot"] <= 600 else 24) if fam.startswith("E") else (16 if g.get("nmap", 0) > 20000 or g["nslot"] > 3000 else (8 if g["nslot"] > 600 else 5)), cost=cost)
+                       mem_gb=(12 if (h.get("L", 2) + len(h.get("prefix", "")) // 2) * (g.get("maxchain", 1) if h.get("method") == "ovl" else 1) <= 4
+                               and h.get("L", 2) + len(h.get("prefix", "")) // 2 <= 2 and g["nslot"] <= 600 else 24) if fam.startswith("E") else (16 if g.get("nmap", 0) > 20000 or g["nslot"] > 3000 else (8 if g["nslot"] > 600 else 5)), cost=cost)
             jobs.append(job)
             meta[h["harness"]] = dict(family=fam, automaton=g["name"], gen=g, h=h)
     for hn in hand_names:
